@@ -670,9 +670,11 @@ func cbContended(m *meta, r *rand.Rand, round int) {
 		case <-time.After(3 * time.Second):
 			m.violate("C07", ctx+": SetWithCallback did not return within 3 s after the drain token was released", ctx)
 		}
-		time.Sleep(ttl + 60*time.Millisecond)
+		for t0 := time.Now(); firedAt.Load() == 0 && time.Since(t0) < 3*time.Second; {
+			time.Sleep(time.Millisecond)
+		}
 		if f := firedAt.Load(); f == 0 {
-			m.violate("C20", fmt.Sprintf("%s: SetWithCallback(1,10,%v) committed when the drain token was released; %v later, untouched, its callback has not run", ctx, ttl, ttl+60*time.Millisecond), ctx)
+			m.violate("C20", fmt.Sprintf("%s: SetWithCallback(1,10,%v) committed when the drain token was released; 3 s later, untouched, its callback has not run", ctx, ttl), ctx)
 		} else if d := time.Duration(f - released.UnixNano()); d < ttl-time.Millisecond || early.Load() > 0 {
 			m.violate("C20", fmt.Sprintf("%s: SetWithCallback(1,10,%v) was called while the drain token was busy and committed when it was released 90 ms later; its callback ran %v after the release, when the entry still had %v to live: a callback never fires before its write's deadline", ctx, ttl, d, time.Duration(early.Load())), ctx)
 		}
@@ -687,7 +689,10 @@ func cbContended(m *meta, r *rand.Rand, round int) {
 		c.VerifHoldShard(0, true)
 		time.Sleep(60 * time.Millisecond)
 		c.VerifHoldShard(0, false)
-		time.Sleep(150 * time.Millisecond)
+		for t0 := time.Now(); runs.Load() == 0 && time.Since(t0) < 3*time.Second; {
+			time.Sleep(time.Millisecond)
+		}
+		time.Sleep(120 * time.Millisecond)
 		if n := runs.Load(); n != 1 {
 			m.violate("C20", fmt.Sprintf("%s: SetWithCallback(1,10,40ms), never touched again; the shard's write lock was held from 20 ms to 80 ms (the timer elapsed inside that window); the callback ran %d times: exactly once per write", ctx, n), ctx)
 		}
